@@ -1,2 +1,7 @@
 // ---- base prelude: layout assumption
 global size_of usize == 8;
+// rule R31 target: the same addition; ASSUMED not to overflow (a u64 counter incremented once per directory entry copied)
+#[verifier::external_body]
+fn verif_count_succ(c: u64) -> (r: u64)
+    ensures r == c + 1
+{ c + 1 }
